@@ -1,7 +1,259 @@
-//! C12 - placeholder, replaced below.
-use crate::model::Analysis;
-use crate::oracle::{Aux, Tally, Violation};
+//! C12 - only requests are answered: protocol-marked replies never elicit a reply,
+//! and bouncing replies back at the responder dies out after at most two replies.
 
-pub fn check(_a: &Analysis, _aux: &mut Aux, _t: &mut Tally) -> Vec<Violation> {
-    Vec::new()
+use std::collections::BTreeMap;
+
+use crate::apps::sig::{self, Decision};
+use crate::apps::{dns, rpc, smb, stun, App};
+use crate::model::Analysis;
+use crate::oracle::{flags_str, Aux, Tally, Verdict, Violation};
+use crate::wire::*;
+use crate::world::net::reflect;
+
+/// Is this application payload a message its own protocol marks as a reply?
+fn reply_typed(p: &[u8], tcp: bool) -> Option<(App, &'static str)> {
+    if let Some(m) = stun::parse(p) {
+        if m.top_bits_zero && m.len_matches && m.tiles && m.class != 0 && (m.magic || m.ty == 0x0101 || m.ty == 0x0111) {
+            return Some((App::Stun, "stun-non-request-class"));
+        }
+    }
+    if p.len() >= 8 && p[0] == 0 && (&p[4..8] == b"\xffSMB" || &p[4..8] == b"\xfeSMB") {
+        if smb::classify(p) == smb::SmbClass::ResponseFlagged {
+            return Some((if p[4] == 0xff { App::Smb1 } else { App::Smb2 }, "smb-reply-flag"));
+        }
+        return None;
+    }
+    let body = if tcp && p.len() >= 4 && p[0] & 0x80 != 0 && (u32::from_be_bytes([p[0] & 0x7f, p[1], p[2], p[3]]) as usize) == p.len() - 4 {
+        &p[4..]
+    } else {
+        p
+    };
+    if !tcp || body.len() != p.len() {
+        if let Some(r) = rpc::parse_reply(body) {
+            if r.msg_type == 1 && r.reply_stat <= 1 && r.verf_flavor <= 6 && r.verf_len <= 400 && body.len() % 4 == 0 && r.accept_stat <= 5 {
+                return Some((App::Rpc, "rpc-reply-message"));
+            }
+        }
+    }
+    if !tcp {
+        if let Ok(m) = dns::decode(p) {
+            if m.h.qr() && m.consumed == p.len() && (m.h.qd as usize + m.h.an as usize) > 0 {
+                return Some((App::Dns, "dns-qr-1"));
+            }
+        }
+    }
+    None
+}
+
+pub fn check(a: &Analysis, _aux: &mut Aux, t: &mut Tally) -> Vec<Violation> {
+    let mut v = Vec::new();
+    let sigs = sig::signatures();
+    // ---- per message: layers 2-4
+    for s in &a.steps {
+        if s.carrier.out.is_some() || !s.carrier.l3_ok {
+            continue;
+        }
+        let what: Option<String> = match (&s.req.l3, &s.req.l4) {
+            (L3::Arp(q), _) if q.f.op == 2 => Some("arp-reply".into()),
+            (_, L4::Icmp4(i)) if i.ty == 0 => Some("echo-reply".into()),
+            (_, L4::Icmp6(i)) if i.ty == 129 => Some("echo6-reply".into()),
+            (_, L4::Icmp6(i)) if i.ty == 136 => Some("neighbour-advertisement".into()),
+            (_, L4::Tcp(th)) if s.carrier.l4_ok && s.carrier.dst_handled => {
+                let f = th.flags & 0x1ff;
+                if f == (F_SYN | F_ACK) {
+                    Some("tcp-synack".into())
+                } else if f & F_RST != 0 && f & (F_PSH | F_ACK) != (F_PSH | F_ACK) {
+                    Some(format!("tcp-rst:{}", flags_str(f)))
+                } else {
+                    None
+                }
+            }
+            _ => None,
+        };
+        if let Some(w) = what {
+            t.judged(Verdict::Silent, w.clone());
+            if s.reply.is_some() {
+                v.push(Violation {
+                    prop: "C12",
+                    rule: "reply-answered".into(),
+                    key: format!("answered:{}", w.split(':').next().unwrap()),
+                    step: s.idx,
+                    detail: format!("{} was answered", w),
+                });
+            }
+        }
+    }
+    // ---- per message: application layer over UDP
+    for x in a.udp_exchanges() {
+        if let Some((app, why)) = reply_typed(x.payload, false) {
+            let d = sig::decide(&sigs, x.payload, true);
+            // "also a valid request of another supported protocol": completes another protocol's
+            // signature, or (datagrams fall back to DNS) parses completely as a DNS query
+            let dns_query = app != App::Dns
+                && d == Decision::NoMatch
+                && dns::decode(x.payload).map(|m| !m.h.qr() && m.consumed <= x.payload.len()).unwrap_or(false);
+            let other = matches!(&d, Decision::Match { sig, .. } if sigs[*sig].app != app) || d == Decision::Ambiguous || dns_query;
+            let idx = a.steps[x.si].idx;
+            if other {
+                t.any("also-completes-another-protocol-signature");
+                // still: no reply of its own protocol
+                if x.reply.and_then(sig::identify_reply) == Some(app) {
+                    v.push(Violation {
+                        prop: "C12",
+                        rule: "reply-answered-by-own-protocol".into(),
+                        key: format!("answered:{}", why),
+                        step: idx,
+                        detail: format!("{} message was answered by the {:?} responder", why, app),
+                    });
+                }
+                continue;
+            }
+            t.judged(Verdict::Silent, format!("udp{}|{}", if x.v6 { 6 } else { 4 }, why));
+            if x.reply.is_some() || x.odd_reply {
+                v.push(Violation {
+                    prop: "C12",
+                    rule: "reply-answered".into(),
+                    key: format!("answered:{}", why),
+                    step: idx,
+                    detail: format!("{} message of {} bytes over UDP was answered", why, x.payload.len()),
+                });
+            }
+        }
+    }
+    // ---- per message: application layer on identified TCP flows
+    for st in a.tcp_streams() {
+        if st.dirty || st.segs.is_empty() {
+            continue;
+        }
+        let p0 = &st.stream[..st.segs[0].len];
+        let flow_app = match sig::decide(&sigs, p0, false) {
+            Decision::Match { sig, .. } => Some(sigs[sig].app),
+            _ => None,
+        };
+        // record-mark boundaries of the stream (the RPC parser is stateful across segments: a
+        // segment is only a message of its own if it starts on such a boundary)
+        let mut bounds: Vec<usize> = vec![0];
+        {
+            let mut i = 0usize;
+            while i + 4 <= st.stream.len() {
+                let l = (u32::from_be_bytes([st.stream[i] & 0x7f, st.stream[i + 1], st.stream[i + 2], st.stream[i + 3]])) as usize;
+                i += 4 + l;
+                if i > st.stream.len() || l == 0 {
+                    break;
+                }
+                bounds.push(i);
+            }
+        }
+        for (k, sg) in st.segs.iter().enumerate() {
+            let p = &st.stream[sg.off..sg.off + sg.len];
+            if let Some((app, why)) = reply_typed(p, true) {
+                if app == App::Rpc && !bounds.contains(&sg.off) {
+                    t.any("rpc-segment-not-on-a-record-boundary");
+                    continue;
+                }
+                // on a flow identified as that protocol the message reaches its own responder
+                let same_family = match (flow_app, app) {
+                    (Some(x), y) if x == y => true,
+                    _ => false,
+                };
+                if k == 0 || same_family {
+                    t.judged(Verdict::Silent, format!("tcp|{}|seg{}", why, k.min(2)));
+                    if k > 0 {
+                        t.probe("reply-typed-message-on-identified-flow");
+                    }
+                    let app_reply = sg.reply_app.as_deref().unwrap_or(&[]);
+                    if sig::identify_reply(app_reply) == Some(app) {
+                        v.push(Violation {
+                            prop: "C12",
+                            rule: "reply-answered-by-own-protocol".into(),
+                            key: format!("answered:{}:tcp{}", why, if k == 0 { "" } else { "-later" }),
+                            step: a.steps[sg.si].idx,
+                            detail: format!("{} message in segment {} of a {:?} flow drew a {:?} response", why, k, flow_app, app),
+                        });
+                    }
+                }
+            }
+        }
+    }
+    // ---- reflection chains
+    // parent[j] = i  if frame j is exactly the reflection of the reply to frame i
+    let mut refl: BTreeMap<Vec<u8>, usize> = BTreeMap::new();
+    let mut depth: Vec<usize> = vec![0; a.steps.len()];
+    let mut root_proto: Vec<Option<String>> = vec![None; a.steps.len()];
+    for (j, s) in a.steps.iter().enumerate() {
+        if let Some(i) = refl.get(&s.raw).copied() {
+            depth[j] = depth[i] + 1;
+            root_proto[j] = if depth[i] == 0 {
+                a.steps[i].reply_raw.as_ref().map(|r| reply_family(r))
+            } else {
+                root_proto[i].clone()
+            };
+        }
+        if let Some(r) = &s.reply_raw {
+            if let Some(f) = reflect(r) {
+                refl.insert(f, j);
+            }
+        }
+    }
+    for (j, s) in a.steps.iter().enumerate() {
+        if depth[j] == 0 {
+            continue;
+        }
+        let fam = root_proto[j].clone().unwrap_or_default();
+        let listed = !matches!(fam.as_str(), "http" | "ssh" | "ghost" | "tcp-ack" | "other");
+        if !listed {
+            t.any("reflection-of-a-protocol-without-reply-marker");
+            continue;
+        }
+        t.judged(
+            if depth[j] >= 3 { Verdict::Silent } else { Verdict::Any },
+            format!("chain|{}|depth{}|{}", fam, depth[j].min(4), if s.reply.is_some() { "reply" } else { "silence" }),
+        );
+        t.probe("reflected-frame-delivered");
+        if depth[j] >= 3 && s.reply.is_some() {
+            v.push(Violation {
+                prop: "C12",
+                rule: "reflection-chain".into(),
+                key: format!("chain-longer-than-2:{}", fam),
+                step: s.idx,
+                detail: format!("the {} reply bounced back {} times is still being answered (third reply of the chain)", fam, depth[j]),
+            });
+        }
+    }
+    v
+}
+
+/// Protocol family of a reply frame of the node.
+fn reply_family(r: &[u8]) -> String {
+    let p = parse(r);
+    match (&p.l3, &p.l4) {
+        (L3::Arp(_), _) => "arp".into(),
+        (_, L4::Icmp4(_)) => "icmp-echo".into(),
+        (_, L4::Icmp6(i)) => if i.ty == 136 { "nd".into() } else { "icmp6-echo".into() },
+        (_, L4::Tcp(t)) => {
+            let app = &r[t.pay_off..t.pay_off + t.pay_len];
+            if t.flags & 0x1ff == (F_SYN | F_ACK) {
+                "tcp-synack".into()
+            } else if app.is_empty() {
+                "tcp-ack".into()
+            } else {
+                app_family(app)
+            }
+        }
+        (_, L4::Udp(u)) => app_family(&r[u.pay_off..u.pay_off + u.pay_len]),
+        _ => "other".into(),
+    }
+}
+
+fn app_family(app: &[u8]) -> String {
+    match sig::identify_reply(app) {
+        Some(App::Http) => "http".into(),
+        Some(App::Ssh) => "ssh".into(),
+        Some(App::Ghost) => "ghost".into(),
+        Some(App::Stun) => "stun".into(),
+        Some(App::Dns) => "dns".into(),
+        Some(App::Rpc) => "rpc".into(),
+        Some(App::Smb1) | Some(App::Smb2) => "smb".into(),
+        _ => "other".into(),
+    }
 }
